@@ -91,8 +91,18 @@ def callback_campaign(ctx, out, n_hist, n_steps):
         log = []
         for i in range(n_steps):
             ti = 0 if ctx.rng.random() < 0.8 else 1
-            if ctx.rng.random() < 0.2 and r.impl.trees[ti].count:
+            x = ctx.rng.random()
+            if x < 0.2 and r.impl.trees[ti].count:
                 op = sortfail_op(ctx.rng, r.impl, ti, r.bij)
+            elif x < 0.4 and r.impl.trees[ti].count >= 2:
+                # in-place filter whose predicate raises at some node (after other nodes were already rejected / accepted)
+                op = H.random_op(ctx.rng, r.impl, ti, labels=SMALL[h % 2], ops=["filter"])
+                if op["op"] == "w.filter" and op["v"]:
+                    ks = sorted(op["v"])
+                    op["v"][ctx.rng.choice(ks[len(ks) // 3:])] = "raiseOther"
+                    for k_ in ks[: len(ks) // 2]:
+                        if ctx.rng.random() < 0.5 and op["v"][k_] != "raiseOther":
+                            op["v"][k_] = "retFalse"
             else:
                 op = H.random_op(ctx.rng, r.impl, ti, labels=SMALL[h % 2], malformed=0.2, ops=[o for o in prof["ops"] if o != "sortfail"])
             s = r.step(op)
@@ -299,7 +309,7 @@ def run(ctx):
         "callback raising at the k-th invocation for every k up to 4: the tree must be unchanged. "
         "non-trivial = >= 3 nodes; distinct by content"
     )
-    ctx.budget_s = 900 if ctx.thorough else 110
+    ctx.budget_s = ctx.budget(900, 110)
     n = 4 if ctx.thorough else 3
     run_corpus(ctx, out)
     _hist.exhaustive_single_ops(ctx, out, judge, max_nodes=n, alphabet=[0, 1], ops_of=lambda impl, ti: _hist.all_single_ops(impl, ti, labels=[0, 1]),
